@@ -113,9 +113,11 @@ class Impl:
         return self.get(tok, (FlodymArray, np.ndarray))
 
     # ------------------------------------------------------------------ results
-    def put_arr(self, htok, a):
+    def put_arr(self, htok, a, divides=False):
         if not isinstance(a, FlodymArray):
             raise TypeError("not an array")
+        if divides and not np.all(np.isfinite(a.values)):
+            return "divzero"      # a zero divisor: numpy's inf/nan is not modelled
         self.objs[self.h(htok)] = a
         return "ok " + fmt_arr(a)
 
@@ -133,7 +135,7 @@ class Impl:
                 parts.append(f"${k}={fmt_arr(o)}")
             elif isinstance(o, DimensionSet):
                 parts.append(f"${k}={fmt_dimset(o)}")
-        return "ok " + "; ".join(parts)
+        return "ok " + " ; ".join(parts)
 
     # ------------------------------------------------------------------ dispatch
     def exec(self, line):
@@ -170,12 +172,12 @@ class Impl:
             r = {"add": lambda: x + y, "sub": lambda: x - y, "mul": lambda: x * y,
                  "div": lambda: x / y, "pow": lambda: x ** y, "min": lambda: x.minimum(y),
                  "max": lambda: x.maximum(y)}[op]()
-            return self.put_arr(t[1], r)
+            return self.put_arr(t[1], r, divides=(op == "div"))
         if op in ("radd", "rsub", "rmul", "rdiv"):
             x, c = self.get(t[2], FlodymArray), num(t[3][2:])
             r = {"radd": lambda: c + x, "rsub": lambda: c - x, "rmul": lambda: c * x,
                  "rdiv": lambda: c / x}[op]()
-            return self.put_arr(t[1], r)
+            return self.put_arr(t[1], r, divides=(op == "rdiv"))
         if op == "neg":
             return self.put_arr(t[1], -self.get(t[2], FlodymArray))
         if op == "abs":
@@ -194,7 +196,7 @@ class Impl:
             return self.put_arr(t[1], self.get(t[2], FlodymArray).cumsum(t[3]))
         if op == "shares":
             ls = () if t[3] == "-" else tuple(t[3])
-            return self.put_arr(t[1], self.get(t[2], FlodymArray).get_shares_over(ls))
+            return self.put_arr(t[1], self.get(t[2], FlodymArray).get_shares_over(ls), divides=True)
         if op == "getitem":
             return self.put_arr(t[1], self.get(t[2], FlodymArray)[self.key(t[3])])
         if op == "setitem":
@@ -224,6 +226,37 @@ class Impl:
             a = self.get(t[1], np.ndarray)
             a.flat[int(t[2])] = num(t[3])
             return "ok " + fmt_nd(a)
+        if op == "probe_write":
+            x = self.get(t[1], FlodymArray)
+            x.values.flat[int(t[2])] = num(t[3])
+            return "ok " + fmt_arr(x)
+        if op == "probe_dims":
+            x = self.get(t[1], FlodymArray)
+            x.dims.append(self.get(t[2], Dimension), inplace=True)
+            return "ok " + fmt_arr(x)
+        if op == "mkstock":
+            from flodym.stocks import SimpleFlowDrivenStock, InflowDrivenDSM
+            from flodym.lifetime_models import FixedLifetime
+            from flodym import StockArray
+            dims = self.get(t[1], DimensionSet)
+            kw = {}
+            names = ["inflow", "outflow", "stock"]
+            lm = None
+            for r in t[3:]:
+                if r.startswith("a:"):
+                    a = self.get(r[2:], FlodymArray)
+                    kw[names.pop(0)] = StockArray(dims=a.dims, values=a.values.copy())
+                elif r.startswith("l:"):
+                    lm = FixedLifetime(dims=self.get(r[2:], DimensionSet), time_letter=t[2], mean=2.0)
+            if lm is not None:
+                InflowDrivenDSM(dims=dims, time_letter=t[2], lifetime_model=lm, **kw)
+            else:
+                SimpleFlowDrivenStock(dims=dims, time_letter=t[2], **kw)
+            return "ok"
+        if op == "mklt":
+            from flodym.lifetime_models import NormalLifetime
+            NormalLifetime(dims=self.get(t[1], DimensionSet), time_letter=t[2], inflow_at=t[3], mean=3.0, std=1.0)
+            return "ok"
         if op == "dump":
             return "ok " + fmt_arr(self.get(t[1], FlodymArray))
         if op == "dumpall":
